@@ -143,3 +143,25 @@ Proof.
   intros H S. exists (spec_search ks b). split; [now apply search_all|]. split; [reflexivity|].
   now apply search_nondec.
 Qed.
+
+(** * whole strings: the encoding is the string plus 0xff, and Cmp extends Go's string order *)
+Lemma encB_whole x : bytes_ok x -> encB (msb_bits x) = x ++ [255].
+Proof.
+  intros Hx. unfold encB. rewrite pack_msb_bits by exact Hx. f_equal. f_equal.
+  rewrite mask_eq, msb_bits_length.
+  replace (8 * length x)%nat with (8 * length x + 0)%nat by lia. rewrite padn_add_mult. reflexivity.
+Qed.
+
+Lemma Cmp_whole x y : bytes_ok x -> bytes_ok y ->
+  Cmp (x ++ [255]) (y ++ [255]) = Some (cmp_sign (bytes_cmp x y)).
+Proof.
+  intros Hx Hy. rewrite <- !encB_whole by assumption. rewrite Cmp_encB.
+  now rewrite <- bytes_cmp_msb_bits.
+Qed.
+
+Lemma New_whole s : bytes_ok s -> New s 0 (8 * zlen s) = Some (s ++ [255]).
+Proof.
+  intros Hs. pose proof (zlen_nonneg s). rewrite New_encB by (assumption || lia).
+  rewrite B_from0 by lia. rewrite firstn_all2 by (rewrite msb_bits_length; unfold zlen; lia).
+  now rewrite encB_whole.
+Qed.
